@@ -31,6 +31,14 @@ PROPS = {
     "C07": dict(fam=["tandem", "cls", "route"], mc=["tandem", "tri", "cls"], inv=["Inv_C07"], step=["Step_C07"]),
     "C10": dict(fam=["core1", "tandem", "prio", "renege"], mc=["core1", "tandem", "prio"],
                 inv=["Inv_C10"], step=["Step_C10"]),
+    "C05": dict(fam=["core1", "tandem", "prio", "preempt", "renege", "cls"],
+                mc=["core1", "tandem", "prio", "preempt", "renege"], inv=["Inv_C05"], step=["Step_C05"]),
+    "C08": dict(fam=["prio", "preempt", "cls", "renege"], mc=["prio", "preempt", "cls"], inv=[], step=["Step_C08"]),
+    "C09": dict(fam=["route", "cls", "tandem", "prio"], mc=["route", "cls", "tandem"], inv=["Inv_C09"], step=["Step_C09"]),
+    "C11": dict(fam=["preempt"], mc=["preempt"], inv=["Inv_C11"], step=["Step_C11"]),
+    "C13": dict(fam=["renege", "core1"], mc=["renege"], inv=["Inv_C13"], step=["Step_C13"]),
+    "C14": dict(fam=["stopcount", "core1", "tandem", "prio", "cls", "renege", "route", "preempt"],
+                mc=["core1", "stopcount"], inv=[], step=["Step_C14"]),
 }
 
 TIERS = {
@@ -126,7 +134,7 @@ def write_replay(prop, n, clause, idx, t, v):
            "verdict": v,
            "events_around": [{"index": j + 1, "ev": ev[j]["ev"], "steps": ev[j]["steps"], "recs": ev[j]["recs"],
                               "state": {k: ev[j][k] for k in ("now", "created", "nexit", "nodes", "cu", "exit")}}
-                             for j in range(lo, min(len(ev), idx + 1))]}
+                             for j in range(lo, min(len(ev), idx))]}
     json.dump(doc, open(path, "w"), indent=1)
     return path
 
